@@ -298,7 +298,7 @@ def symbol_part(rep, tier):
 
 def run_c16(rep, tier):
     cfg = 'Helpers_quick.cfg' if tier == 'quick' else 'Helpers_thorough.cfg'
-    out, st = common.run_tlc('Helpers', cfg=cfg, workers=8, timeout=1500, xmx='8g', coverage=True)
+    out, st = common.run_tlc('Helpers', cfg=cfg, workers=8, timeout=4000, xmx='10g', coverage=(tier == 'quick'))
     rep.add_design('Helpers', cfg, out, st, 'Scan(Build(fields)) = fields and NoForgery for all field lists over {a ; : \\ " , LF}', allowed_zero=('Next',))
     specs = gen_specs(tier, common.seed())
     rep.evaluations = len(specs)
